@@ -113,6 +113,20 @@ func edit(t *rapid.T, v *ref.V) *ref.V {
 }
 
 func drawValue(t *rapid.T) *ref.V {
+	if gen.OneIn(t, 3000, "deepwrap") {
+		// an ordinary value far down (1 100 levels, inside the codec's limit of 10 000; each such case costs ~0.5 s):
+		// equality must be structural at every depth
+		v := gen.WithEmptyName.Object(2).Draw(t, "dv")
+		n := 1100
+		for i := 0; i < n; i++ {
+			if i%2 == 0 {
+				v = ref.Arr(v)
+			} else {
+				v = ref.ObjOf("n", v)
+			}
+		}
+		return v
+	}
 	if gen.OneIn(t, 8, "special") {
 		return rapid.SampledFrom([]*ref.V{ref.Null(), ref.Arr(ref.Null()), ref.Arr(ref.Null(), ref.Null()), ref.ObjOf("a", ref.Null()), ref.Arr(ref.Arr(ref.Null())), ref.Obj(), ref.Arr()}).Draw(t, "sp")
 	}
@@ -283,7 +297,7 @@ func checkTriple(c Case) ev.Verdict {
 
 var (
 	pairUnit = ev.Unit[Case]{Name: "pairs", Draw: drawPair, Check: checkPair,
-		Rule: "a = generated value (null roots, nulls in arrays and as members included); b = clone of a, or a with one small edit (value changed, null<->absent, {}<->[]<->null, member/element removed, added, renamed, elements swapped), or independent; both re-serialised with members shuffled, random whitespace and alternative escapes; oracle: structural equality on the independent tree, plus symmetry and reflexivity; non-trivial = equal but not byte-identical, or unequal"}
+		Rule: "a = generated value (null roots, nulls in arrays and as members included; one in 3 000 is an object wrapped 1 100 levels deep); b = clone of a, or a with one small edit (value changed, null<->absent, {}<->[]<->null, member/element removed, added, renamed, elements swapped), or independent; both re-serialised with members shuffled, random whitespace and alternative escapes; oracle: structural equality on the independent tree, plus symmetry and reflexivity; non-trivial = equal but not byte-identical, or unequal"}
 	tripleUnit = ev.Unit[Case]{Name: "triples", Draw: drawTriple, Check: checkTriple,
 		Rule: "triples of re-spelled clones with occasional single edits; oracle: transitivity and agreement with structural equality on all three pairs; non-trivial = a~b and b~c with three distinct spellings"}
 	malUnit = ev.Unit[Case]{Name: "malformed", Draw: drawMalformed, Check: checkPair,
